@@ -29,14 +29,16 @@ EXPECTED_PROBES = ['takeover_backref_s2c', 'takeover_backref_c2s',
                    'fragmented_compressed', 'ctl_between_compressed_fragments',
                    'uncompressed_mixed', 'client_compress_false',
                    'empty_compressed', 'big_compressed', 'negative_rejected',
-                   'rejected_bad_params', 'no_rsv1_without_negotiation']
+                   'rejected_bad_params', 'no_rsv1_without_negotiation',
+                   'reconnect_negotiated', 'reconnect_not_negotiated']
 
 MODES = ['normal'] * 12 + ['no_offer', 'server_omits', 'bad_params',
                            'negative', 'negative', 'unsolicited']
 
 
 def plan(tier):
-    return [('seeded', 4096 if tier == 'quick' else 160000)]
+    return [('seeded', 4096 if tier == 'quick' else 160000),
+            ('reconnect', 300 if tier == 'quick' else 12000)]
 
 
 def _msg_payload(rng, history, big_ok):
@@ -64,7 +66,99 @@ def _msg_payload(rng, history, big_ok):
     return (b'the quick brown fox %d ' % rng.randrange(10)) * (n // 20 + 1)
 
 
+def _reconnect_case(rng):
+    """Two or three connections on one WebSocket object; each negotiates
+    permessage-deflate or not, independently."""
+    n = rng.choice([2, 2, 3])
+    conns = [rng.random() < 0.6 for _ in range(n)]
+    if all(conns) or not any(conns):
+        conns[rng.randrange(n)] = not conns[0]
+    return {'mode': 'reconnect', 'negotiated': conns,
+            'cnct': rng.random() < 0.4,
+            'text': S.rand_text(rng, rng.choice([5, 60, 400])),
+            'how': rng.choice(['eof', 'rst', 'close'])}
+
+
+def _execute_reconnect(case):
+    res = Result()
+    conns = []
+    app = []
+    for k, neg in enumerate(case['negotiated']):
+        hdr = b'Sec-WebSocket-Extensions: permessage-deflate'
+        if case.get('cnct'):
+            hdr += b'; client_no_context_takeover'
+        steps = S.handshake_steps([hdr] if neg else ())
+        steps.append(S.send(peer.enc_frame(1, b'go')))
+        if case.get('how') == 'close':
+            steps += [S.send(peer.enc_frame(8, peer.enc_close_payload(
+                1000, 'x')), after=500000),
+                {'op': 'await_close', 'timeout': 2000000}, S.eof()]
+        else:
+            steps.append({'op': case.get('how', 'eof'), 'after': 1500013})
+        conns.append({'server': steps})
+        app.append({'when': {'name': 'text', 'attempt': k},
+                    'do': [{'op': 'send_text', 'text': case['text']},
+                           {'op': 'send_binary',
+                            'hex': case['text'].encode('utf-8').hex()},
+                           {'op': 'send_text', 'text': case['text']}]})
+    sc = {'url': 'ws://example.test/', 'ws': {'compress': True},
+          'connect': {'ping_rate': 0, 'poll': 5}, 'conns': conns, 'app': app,
+          'n_connects': len(conns)}
+    tr = netsim.run(sc)
+    res.stats.update(tr.world.stats)
+    res.sim_us = tr.world.now
+    res.digest = tr.digest()
+    ref = case['text'].encode('utf-8')
+    for k, neg in enumerate(case['negotiated']):
+        if k >= len(tr.world.socks):
+            res.bad('C06/reconnect/missing_connection', 'connection %d' % k)
+            break
+        wire = oracle.Wire(tr.world.socks[k])
+        data = [f for f in wire.frames if f.opcode in (1, 2)]
+        dp = peer.DeflatePeer(15, 15, False, bool(case.get('cnct')))
+        if len(data) != 3:
+            res.bad('C06/reconnect/frame_count',
+                    'connection %d: %d data frames' % (k, len(data)))
+            continue
+        for f in data:
+            if not neg:
+                if f.rsv1:
+                    res.bad('C06/reconnect/rsv1_without_negotiation',
+                            'connection %d did not negotiate permessage-'
+                            'deflate (history %r) but %r has RSV1' % (
+                                k, case['negotiated'], f))
+                    break
+                payload = f.payload
+            else:
+                if not f.rsv1:
+                    res.bad('C06/reconnect/not_compressed',
+                            'connection %d negotiated, frame %r' % (k, f))
+                    break
+                try:
+                    payload = dp.decompress(f.payload)
+                except zlib.error as e:
+                    res.bad('C06/reconnect/peer_cannot_inflate',
+                            'connection %d (history %r): %s' % (
+                                k, case['negotiated'], e))
+                    break
+            if payload != ref:
+                res.bad('C06/reconnect/client_message_corrupt',
+                        'connection %d: %r' % (k, payload[:30]))
+                break
+        res.stats['probe:reconnect_' + ('negotiated' if neg else
+                                        'not_negotiated')] += 1
+    names = tr.names()
+    res.nontrivial = names.count('ready') >= 2
+    res.sig = 'reconnect|%s|%s|%d' % (case['negotiated'], case.get('how'),
+                                      len(ref))
+    res.sample = {'mode': 'reconnect', 'negotiated': case['negotiated'],
+                  'events': names[:16]}
+    return res
+
+
 def make_case(family, i, rng, tier):
+    if family == 'reconnect':
+        return _reconnect_case(rng)
     combo = i % 256
     sw = 8 + (combo & 7)
     cw = 8 + ((combo >> 3) & 7)
@@ -330,6 +424,8 @@ def build(case):
 
 
 def execute(case):
+    if case.get('mode') == 'reconnect':
+        return _execute_reconnect(case)
     res = Result()
     sc, enc, info = build(case)
     mode = case['mode']
